@@ -565,6 +565,15 @@ theorem step_inv {sp sp' : Spec} {op : Op} {out : Out} {L : List LogE} (hst : sp
     obtain ⟨_, cid, _, _, hcid, _⟩ := hst
     obtain ⟨rfl, hl'⟩ := stepHashId_inv hcid hs hl
     exact ⟨hs, hl'⟩
+  | hashNone =>
+    simp only [Spec.step] at hst
+    split at hst
+    · rename_i hc
+      simp only [Bool.and_eq_true, beq_iff_eq, decide_eq_true_eq] at hc
+      cases hst
+      rw [hc.2, List.append_nil]
+      exact ⟨hs, hl⟩
+    · cases hst
   | emitNone h =>
     simp only [Spec.step] at hst
     split at hst
